@@ -272,7 +272,7 @@ func (r *simRW) finish() {
 	if r.headerWritesVisibleAt == 0 {
 		r.headerWritesVisibleAt = r.w.seq
 	}
-	if r.declaredCL >= 0 && r.Written < r.declaredCL && r.failAfter < 0 {
+	if r.declaredCL >= 0 && r.Written < r.declaredCL && r.failAfter < 0 && !r.bodiless {
 		r.Problems = append(r.Problems, fmt.Sprintf("wrote %d bytes, fewer than declared Content-Length %d", r.Written, r.declaredCL))
 	}
 	// trailers: keys announced in Trailer at header time, plus TrailerPrefix keys
